@@ -224,6 +224,14 @@ type A1 struct {
 	F5 *T1 `inject:""`
 }
 
+// A3 has the tagged fields of A1; every Apply on a pointer to it is preceded by an Apply on the struct BY VALUE (which
+// can set nothing and reports nothing): what one call was handed says nothing about what the next one may set
+type A3 struct {
+	F1 T1  `inject:"t"`
+	F2 I2  `inject:""`
+	F5 *T1 `inject:""`
+}
+
 type A2 struct {
 	G1 I3         `inject:""`
 	G2 <-chan int `inject:""`
@@ -371,6 +379,15 @@ func injRunPlain(c *injCase, tr *traceWriter) {
 		err := inj[s].Apply(&a1)
 		e := map[string]interface{}{"ev": "apply", "s": s, "fields": []string{"T1", "I2", "PT1"}, "err": err != nil, "errtype": "",
 			"got": []injVal{idValOrNone(a1.F1, a1.F1 != T1{}), idVal(a1.F2), idVal(a1.F5)}, "untouched": a1.F3 == T2{99} && a1.f4 == "keep"}
+		if err != nil {
+			e["errtype"] = errType(err)
+		}
+		tr.emit(e)
+		a3 := A3{}
+		_ = inj[s].Apply(a3)
+		err = inj[s].Apply(&a3)
+		e = map[string]interface{}{"ev": "apply", "s": s, "fields": []string{"T1", "I2", "PT1"}, "err": err != nil, "errtype": "",
+			"got": []injVal{idValOrNone(a3.F1, a3.F1 != T1{}), idVal(a3.F2), idVal(a3.F5)}, "untouched": true}
 		if err != nil {
 			e["errtype"] = errType(err)
 		}
